@@ -7,6 +7,7 @@ import os
 
 from .. import gen, lib, ops, wgen, wexec
 from ..backends import store
+from ..simfs import SIM_ROOT
 from ..compare import V
 from ..core import Result, digest
 from ..world import build
@@ -156,10 +157,10 @@ def execute(case):
             st.put('w.tdms', data, real=real)
             if with_index:
                 st.put('w.tdms_index', index, real=real)
-            path = os.path.join(st.realdir(), 'w.tdms') if real else 'w.tdms'
+            path = os.path.join(st.realdir(), 'w.tdms') if real else SIM_ROOT + 'w.tdms'
             if case.get('pathlib'):
                 import pathlib
-                path = pathlib.Path(path) if real else pathlib.PurePosixPath(path)
+                path = pathlib.Path(path)
                 res.probe('pathlib-path')
             for mode in ('read', 'open', 'read_metadata'):
                 win_rng = random.Random(case['win_seed'])
@@ -202,10 +203,10 @@ def execute(case):
         if isinstance(ref, dict) and case['cut'] is None:
             st.remove('w.tdms')
             st.put('only.tdms_index', index, real=real)
-            ipath = os.path.join(st.realdir(), 'only.tdms_index') if real else 'only.tdms_index'
+            ipath = os.path.join(st.realdir(), 'only.tdms_index') if real else SIM_ROOT + 'only.tdms_index'
             if case.get('pathlib'):
                 import pathlib
-                ipath = pathlib.Path(ipath) if real else pathlib.PurePosixPath(ipath)
+                ipath = pathlib.Path(ipath)
             for kind in ('path', 'stream'):
                 for mode in ('read', 'open', 'read_metadata'):
                     src_ = ipath if kind == 'path' else st.fs.stream('only.tdms_index')
